@@ -26,6 +26,7 @@ import (
 	"sort"
 	"strconv"
 	"strings"
+	"sync"
 	"sync/atomic"
 	"testing"
 	"time"
@@ -622,6 +623,7 @@ type vcRun struct {
 	cur     []string
 	stats   map[string]int
 	nextReg int
+	modsSeen int
 	nextDef int
 	nextP   int
 	acc     int
@@ -771,6 +773,9 @@ func vcModName(n string) string {
 
 func (r *vcRun) options(q *vcReq) []AddOption {
 	var o []AddOption
+	if q.ctor%3 == 0 {
+		o = append(o, nil) // option lists assembled conditionally contain nil entries: they are ignored
+	}
 	if q.name != 0 && q.name < len(vcNames) {
 		o = append(o, Name(vcNames[q.name]))
 	}
@@ -1368,6 +1373,108 @@ func (r *vcRun) execMods(line string, trees []*vcTree) {
 		}
 	}
 	r.checkAgainstRef()
+	if r.modsSeen++; r.modsSeen%5 == 0 {
+		r.checkModuleReuse(trees)
+	}
+}
+
+// ---- a module is a value: applying it again, elsewhere or at the same time, is the same list of calls -----------
+func (r *vcRun) plainModule(s *vcSide, t *vcTree) ModuleOption {
+	if t.isNil {
+		return nil
+	}
+	if t.op != nil {
+		o := t.op
+		switch o.kind {
+		case "add":
+			svc, opts := r.service(s, o.req), r.options(o.req)
+			switch o.req.life {
+			case "s":
+				return AddSingleton(svc, opts...)
+			case "c":
+				return AddScoped(svc, opts...)
+			}
+			return AddTransient(svc, opts...)
+		case "rm":
+			return vcRemoveOpt[o.ty]()
+		}
+		return vcRemoveKeyedOpt[o.ty](vcKeyAny(o.key))
+	}
+	var items []ModuleOption
+	for _, it := range t.items {
+		items = append(items, r.plainModule(s, it))
+	}
+	return NewModule(t.name, items...)
+}
+
+func vcSummary(c Collection) string {
+	var b strings.Builder
+	for _, d := range c.(*collection).allDescriptors {
+		k := fmt.Sprint(d.Key)
+		if d.VoidReturn {
+			k = "void"
+		}
+		fmt.Fprintf(&b, "%v|%s|%s|%d;", d.Type, k, d.Group, d.Lifetime)
+	}
+	return b.String()
+}
+
+func (r *vcRun) checkModuleReuse(trees []*vcTree) {
+	tmp := newSide("reuse")
+	var mods []ModuleOption
+	for _, t := range trees {
+		mods = append(mods, r.plainModule(tmp, t))
+	}
+	apply := func(ms ...ModuleOption) (string, string) {
+		c := NewCollection()
+		e, p := safely(func() error { return c.AddModules(ms...) })
+		if p != nil {
+			return fmt.Sprintf("panic: %v", p), ""
+		}
+		return vcErrChain(e), vcSummary(c)
+	}
+	e1, s1 := apply(mods...)
+	e2, s2 := apply(mods...)
+	if e1 != e2 || s1 != s2 {
+		r.fail("C20,C17", fmt.Sprintf("the same module values applied to a second fresh collection: first %s {%s}, second %s {%s}", e1, s1, e2, s2))
+		return
+	}
+	// two goroutines apply one module value at the same time (each to its own collection): a gate inside the
+	// module holds the first until the second has entered it too (or 300 ms have passed)
+	var entered atomic.Int32
+	both := make(chan struct{})
+	gate := ModuleOption(func(Collection) error {
+		if entered.Add(1) == 2 {
+			close(both)
+		}
+		select {
+		case <-both:
+		case <-time.After(300 * time.Millisecond):
+		}
+		return nil
+	})
+	outer := NewModule("shared", append([]ModuleOption{gate}, mods...)...)
+	var res [2][2]string
+	var wg sync.WaitGroup
+	for k := 0; k < 2; k++ {
+		wg.Add(1)
+		go func(k int) {
+			defer wg.Done()
+			res[k][0], res[k][1] = apply(outer)
+		}(k)
+	}
+	wg.Wait()
+	want := e1
+	if want != "ok" {
+		want = "err mod(" + vcModName("shared") + ")>" + strings.TrimPrefix(e1, "err ")
+	}
+	for k := 0; k < 2; k++ {
+		if res[k][0] != want || res[k][1] != s1 {
+			r.fail("C20,C09", fmt.Sprintf("two goroutines apply one module value at the same time, each to its own collection: goroutine %d got %s {%s}; applied alone it gives %s {%s}", k, res[k][0], res[k][1], want, s1))
+			return
+		}
+	}
+	r.stats["module_reuse"]++
 }
 
 func (r *vcRun) expectedRuns(ref *vcRef) string {
